@@ -417,17 +417,34 @@ func NewDecoder(n int, sep string, r io.Reader) (sts.PayloadDecoder, error) {
 	binReader := &Decoder{
 		stream: r,
 	}
-	pr, pw := io.Pipe()
-	go func() {
-		if n > 0 {
-			_, _ = io.CopyN(pw, r, int64(n))
-		} else {
-			// When no length provided, assume the meta is the entire payload
-			_, _ = io.Copy(pw, r)
+	// Read the metadata in full before decoding it: metadata that ends before
+	// its announced length, or is followed by anything else within that length,
+	// has to be refused rather than waited for or silently skipped.
+	var raw []byte
+	if n > 0 {
+		raw, err = io.ReadAll(io.LimitReader(r, int64(n)))
+		if err == nil && len(raw) < n {
+			err = io.ErrUnexpectedEOF
 		}
-	}()
-	jr := json.NewDecoder(pr)
-	err = jr.Decode(&binReader.meta)
+	} else {
+		// When no length provided, assume the meta is the entire payload
+		raw, err = io.ReadAll(r)
+	}
+	if err == nil {
+		err = json.Unmarshal(raw, &binReader.meta)
+	}
+	if err == nil {
+		for _, part := range binReader.meta {
+			if part == nil {
+				err = fmt.Errorf("invalid payload metadata: empty entry")
+				break
+			}
+		}
+	}
+	if err != nil {
+		binReader.meta = nil
+		return binReader, err
+	}
 	if sep != "" {
 		for _, part := range binReader.meta {
 			part.Name = filepath.Join(strings.Split(part.Name, sep)...)
